@@ -1479,4 +1479,4 @@ SELFTEST = [
          "let fabricated = openapiv3::ReferenceOr::<openapiv3::Response>::Reference { reference: format!(\"#/components/responses/{}\", type_name) };\n                    let reference = &fabricated;"))],
      "expect": ["C06.R4"], "why": "the 4xx/5xx $ref is formatted from the Rust type name instead of being the stored entry's reference: it can name a response that is not in components.responses"},
 ]
-LEVEL_TEXT += " Also (R8): operations are documented under OpenAPI path templates: the endpoint iterator never renders a variable with its `:.*` pattern. Also (R9 = C07.R9): an operation's error-response reference is formatted from the very name its response is stored under."
+LEVEL_TEXT += " Also (R8): operations are documented under OpenAPI path templates: the endpoint iterator never renders a variable with its `:.*` pattern. Also (R9 = C07.R9): an operation's error-response reference is formatted from the very name its response is stored under. Also (R10 = C19.R2a): every argument of a declaration, `unpublished` included, reaches the same-named field of the metadata the endpoint is registered with."
